@@ -1,4 +1,5 @@
 import BoxoModel.C10.Lemmas
+import BoxoModel.Props.C09
 /-!
 # C10 — DAG modifier behaves as a mutable file
 
@@ -109,6 +110,37 @@ theorem c10_sync_transparent (c : Cfg) (s : DM) (h : Inv c s) :
     ∃ s1, sync c s = some s1 ∧ C10.abs s1 = C10.abs s ∧ s1.wrBuf = none := by
   obtain ⟨s1, y1, _, y3, y4, y5, y6⟩ := sync_ok c s h
   exact ⟨s1, y1, by simp [C10.abs, DM.bytes, DM.anchor, y3, y4, y5, y6], y3⟩
+
+/-! ## The `dm.read` field: composition with the reader model of C09
+
+`DagModifier.Read` is `Sync`, then (if there is no reader) `NewDagReader(curNode)` + `Seek(curWrOff, SeekStart)`,
+then `CtxReadFull`.  The C10 model reads `content cur` from `curWrOff` directly; the theorem below shows that this
+is exactly what the transcribed DagReader / Walker of C09 delivers on the synced tree, so the abstraction of the
+`read` field rests on a theorem (plus the argument, in Model.lean, that after the fixes an existing reader is
+always positioned at `curWrOff` over the current node). -/
+
+/-- a fresh C09 reader over the synced DAG, sought to `curWrOff`, then reading `k > 0` bytes, returns the bytes
+and the error class (EOF iff short) that the C10 model's `read` reports -/
+theorem c10_read_is_dagreader_read (c : Cfg) (s : DM) (k : Nat) (hk : 0 < k) (h : Inv c s) :
+    ∃ s1, sync c s = some s1 ∧
+      (C09.newReader s1.cur).run [.seek s1.curWrOff 0, .read k] =
+        [{ bytes := [], off := s1.curWrOff, err := .nil },
+         { bytes := (read c s k).2.1, off := (read c s k).2.1.length,
+           err := if (read c s k).2.1.length < k then .eof else .nil }] := by
+  obtain ⟨s1, y1, y2, y3, y4, y5, _⟩ := sync_ok c s h
+  refine ⟨s1, y1, ?_⟩
+  have hws := y2.2.2.1.1
+  rw [C09.c09_refines_eq s1.cur hws _ (by
+    intro op hop
+    simp only [List.mem_cons, List.mem_nil_iff, or_false] at hop
+    rcases hop with rfl | rfl
+    · rfl
+    · cases k with
+      | zero => omega
+      | succ k => rfl)]
+  obtain ⟨_, r2, _⟩ := read_ok c s k h
+  have hnn : ¬ ((s.curWrOff : Int) < 0) := by omega
+  simp only [C09.Spec.run, C09.Spec.step, C09.Spec.seekTo, y4, y5, hnn, if_false, Int.toNat_natCast, r2]
 
 /-! ## Non-vacuity: a concrete history through buffering, sparse extension, truncation and re-reading -/
 
